@@ -178,7 +178,24 @@ def access_targets():
     ctt = Fn('cache_targets_task', ITU, 'cache_targets', flt='targets_iterator_t::cache_targets', lambda_index=0, members=members, calls=calls, **common)
     cft = Fn('cache_flatten_task', ITU, 'cache_flatten', flt='flatten_iterator_t::cache_flatten', lambda_index=0, members=members, calls=calls,
              extra_params=['struct nv_samples* samples', 'struct nv_dataset* dataset'], **common)
-    return [Target('targets_scaled', [tsc()], H), Target('flatten_scaled', [fsc()], H),
+    import ctor_spec
+    omembers = [(r'^resize\|nano::tensor_vector_storage_t<double, [24]>|^resize\|nano::tensor[24]d_t|^resize\|nano::tensor_t<nano::tensor_vector_storage_t, double, [24]>', 'nv_cache_resize({self}, {0})!'),
+                (r'^target_dims\|nano::dataset_t', 'nv_ds_tdims({self})'), (r'^columns\|nano::dataset_t', 'nv_ds_columns({self})'),
+                (r'^batch\|nano::targets_iterator_t \*', '{self}->m_batch')] + members
+    ocalls = [(r'^size\|', 'nv_tdims_size({0})'), (r'^cat_dims\|', '{0}'),
+              # the handler of the repaired library: `m_cache = tensorNd_t{};` (move assignment of a default-constructed tensor, noexcept)
+              (r'^operator=\|nano::tensor_t<nano::tensor_vector_storage_t, double, [24]> &\(nano::tensor_t<nano::tensor_vector_storage_t, double, [24]> &&\) noexcept', '(*nv_cache_assign({&0}, {1}))'),
+              (r'^ctor\|nano::tensor[24]d_t\|void \(\)|^ctor\|nano::tensor_t<nano::tensor_vector_storage_t, double, [24]>\|void \(\)', 'nv_cache_empty()')] + calls
+    octc = dict(common, hooks=[scale_view_hook, ctor_spec.imul_hook], types=[(r'^nano::tensor[34]d_dims_t$|^std::array<long, [34](UL)?>$|tensor_dims_t<', 'uint64_t')] + types)
+    oct_ = Fn('cache_targets', ITU, 'cache_targets', flt='targets_iterator_t::cache_targets', calls=ocalls,
+              members=[(r'^map\|nano::base_dataset_iterator_t \*', 'nv_cache_map(self, &self->m_targets, NV_TARGETS, self->m_targets_stats.id, {0}, {1})!')] + omembers, **octc)
+    ocf = Fn('cache_flatten', ITU, 'cache_flatten', flt='flatten_iterator_t::cache_flatten', calls=ocalls,
+             members=[(r'^map\|nano::base_dataset_iterator_t \*', 'nv_cache_map(self, &self->m_flatten, NV_FLATTEN, self->m_flatten_stats.id, {0}, {1})!')] + omembers, **octc)
+    outer = [Target('cache_targets', [oct_], H), Target('cache_flatten', [ocf], H)]
+    sset = Fn('scaling_set', ITU, 'scaling', flt='targets_iterator_t::scaling', select=nparams(1), members=members, calls=calls, **common)
+    bset = Fn('batch_set', ITU, 'batch', flt='targets_iterator_t::batch', select=nparams(1), members=members, calls=calls, **common)
+    return outer + [Target('scaling_set', [sset], H), Target('batch_set', [bset], H),
+            Target('targets_scaled', [tsc()], H), Target('flatten_scaled', [fsc()], H),
             Target('targets_at', [tat, tsc(), mkr(), rng()], H), Target('flatten_at', [fat, fsc(), mkr(), rng()], H),
             Target('cache_targets_task', [ctt, tsc(), mkr(), rng()], H), Target('cache_flatten_task', [cft, fsc(), mkr(), rng()], H)]
 
@@ -350,8 +367,27 @@ def task_targets():
     return [Target('linear_task', [lt], H), Target('bias_task', [bt], H), Target('grads_task', [gt], H), Target('scale_task', [st], H)]
 
 
+def select_targets(tier='thorough'):
+    """(d) select_iterator_t::loop (feature-wise iteration), all 12 overloads + features_per_thread: the functional contracts of
+    specs/C18/functional.py (one definition of the clause for both properties): a chunk task [begin, end) invokes the operator exactly
+    end - begin times, invocation k for the feature AT POSITION begin + k of the given list, with this task's tnum and the values
+    dataset().select(samples, THAT feature, m_buffers[tnum].m_<kind>); loop(samples, features, op) maps once over [0, features.size())
+    in chunks >= 1; loop(samples, feature, op) is one invocation with tnum 0; loop(samples, op) walks the list of the operator's kind"""
+    import os
+    import sys
+    d = os.path.join(os.path.dirname(os.path.abspath(__file__)), '..', 'C18')
+    if d not in sys.path:
+        sys.path.append(d)
+    import functional
+    ts = functional.select_targets()
+    # quick tier: one target per overload kind, every value kind once; the other 12 instantiations of the same four contracts are thorough
+    quick = ('features_per_thread', 'fsel_task_sclass', 'fsel_loop_mclass', 'fsel_one_scalar', 'fsel_all_struct')
+    return [t for t in ts if tier != 'quick' or t.name in quick]
+
+
 def build(tier):
-    targets = reduce_targets() + acc_targets() + iter_targets() + access_targets() + vgrad_targets() + task_targets()
+    import ctor_spec
+    targets = reduce_targets() + acc_targets() + iter_targets() + access_targets() + vgrad_targets() + task_targets() + ctor_spec.targets(tier) + select_targets(tier)
     import reg_smt
     bounded, fns = [], []
     for n in (1, 2, 3):
@@ -365,8 +401,17 @@ def build(tier):
             x.bound = f'|W| = {n}'
         bounded += v
         fns.append(info)
+    vcs = []
+    import reg_generic
+    try:
+        v, info = reg_generic.vcs()
+    except astload.ExtractionError as e:
+        v = [VC(f'linear_do_vgrad_reg[generic]/not extracted: {str(e)[:160]}', '(check-sat)', solvers=['none'], about='regularisation terms (generic coordinate): extraction failed')]
+        info = {'c_name': 'linear_do_vgrad_reg[generic]', 'cxx': 'linear::function_t::do_vgrad (regularisation part)', 'file': reg_smt.FILE, 'undecided': str(e)[:300]}
+    vcs += v
+    fns.append(info)
     return {
-        'targets': targets, 'vcs': [], 'bounded': bounded, 'functions': fns,
+        'targets': targets, 'vcs': vcs, 'bounded': bounded, 'functions': fns,
         'decided': [
             'sum_reduce<linear::accumulator_t>, sum_reduce<gboost::accumulator_t> for every number of accumulators k >= 1: accumulator 0 absorbs accumulators 1..k-1 exactly once each (in order, never itself, no other accumulator is a target), is then normalised exactly once by `samples`, and is the one returned',
             'min_reduce (instantiation of src/wlearner/stump.cpp): returns an element of the vector whose m_score is minimal (at positions 0 and ghost g), with the real comparator lambda = strict < on m_score',
@@ -378,15 +423,21 @@ def build(tier):
             'chunk tasks (the lambdas handed to loop): the task touches only m_accumulators[tnum]; predictions are computed from the chunk\'s inputs and the current parameters, loss values / gradients from the chunk\'s targets and these predictions, written to the chunk\'s own slots; the partial sums receive exactly once the sum of the chunk\'s loss values and, iff a gradient is requested, the chunk\'s gradient contributions (linear: column sums and gradients^T * inputs over all rows of the chunk; scale: per sample, strong + (cluster < 0 ? 0 : x[cluster]) * weak of the sample at that position, gradient <gradient row, weak row of the same sample> added to m_gb1[cluster of that sample], unassigned samples skipped; grads: values and gradients of the chunk go to rows [begin, end) of m_values / m_vgrads)',
             'gboost::accumulator_t::update / vgrad: m_vm1 += sum of the given values; vgrad returns m_vm1 and copies m_gb1 into gx iff gx is not empty',
             'access paths targets(tnum, range) / flatten(tnum, range): cached and on-the-fly branch return rows gathered for exactly the sample positions of the range that went exactly once through the scaling function with this iterator\'s statistics and mode; on-the-fly rows live in the per-thread buffer tnum; the chunk tasks of cache_targets / cache_flatten store such rows into rows [begin, end) of the cache; the wrappers targets(map) / flatten(map) scale with (own statistics, m_scaling)',
+            'regularisation terms for EVERY number of weights |W| = tsize * isize >= 1 (SMT over the reals, generic-coordinate mode of specs/C06/eig.py on the real body of linear::function_t::do_vgrad): value == loss + l1*mean|W| + (l2/2)*mean(W^2) with mean|W| and mean(W^2) the reductions over all coefficients; when a gradient is requested the coefficient written to the weights part of gx at a generic coordinate k is gW1[k] + l1*sign(W[k])/|W| + l2*W[k]/|W|, otherwise gx is untouched; W.size() / rows() / cols() are tsize*isize / tsize / isize',
+            'constructors (CBMC): linear::function_t, gboost::{scale,bias,grads}_function_t: m_accumulators has iterator.concurrency() entries, each a copy of accumulator_t{isize, tsize} / accumulator_t{size()} whose gradient sums have the shape of the gradient parts (tsize; tsize x isize; size()) and start zeroed (clear AFTER resize); m_values / m_vgrads / m_outputs have one row per sample OF THE ITERATOR and the dataset\'s target dims; size() == (columns + 1) * size(target_dims) / cluster.groups() / size(target_dims) / samples * size(target_dims); m_isize / m_tsize / m_l1reg / m_l2reg / the iterator, loss, cluster, strong and weak outputs stored are the given ones.  linear / gboost accumulator_t constructors.  targets_ / flatten_ / select_iterator_t constructors: the per-thread buffer vectors have concurrency() entries, the samples are the given ones, no cache (0 rows), batch() >= 1 (default 100), scaling statistics made from (this dataset, these samples); base_dataset_iterator_t::concurrency() == dataset_t::concurrency() == m_pool->size() of the dataset whose thread_pool() map runs on: hence tnum < pool size (C17) < every per-thread vector',
+            'select_iterator_t::loop, all 12 overloads + features_per_thread (functional contracts shared with specs/C18/functional.py): a chunk task [begin, end) invokes the operator exactly end - begin times, invocation k for the feature AT POSITION begin + k of the given list, with this task\'s tnum and the values dataset().select(samples, THAT feature, m_buffers[tnum].m_<kind>); loop(samples, features, op) maps once over [0, features.size()) in chunks of features_per_thread >= 1; loop(samples, feature, op) is one invocation with tnum 0; loop(samples, op) walks the feature list of the operator\'s kind with the caller\'s samples',
+            'cache_targets / cache_flatten outer bodies (try / catch printed by the engine): the chunk task is mapped exactly once over ALL samples in chunks of batch(), after the cache was resized to one row per sample; true is returned only for a complete cache; no exception leaves the try block; on EVERY return path (allocation failure, throwing chunk task, size guard false) a cache with one row per sample holds the scaled rows of all samples, so that cached and uncached iteration deliver the same rows (the handler drops the cache: repaired defect, FINDING_failed_cache.md; refuted on the text before the repair; native driver replay/C09_failed_cache.cpp)',
+            'setters targets_iterator_t::scaling(mode) / batch(n): store the argument and touch nothing else: an existing cache keeps the mode tag it was built under (FINDING_scaling_after_cache.md: stale rows, natively demonstrated; no library call site changes the mode after caching)',
             'BOUNDED (|W| = 1, 2, 3; entries, l1, l2, loss symbolic reals): linear::function_t::do_vgrad returns loss + l1*mean|W| + (l2/2)*mean(W^2) and, when a gradient is requested, writes gW1 + l1*sign(W)/|W| + l2*W/|W| into the weights part of gx'],
         'not_decided': [
             'the loss values and their gradients (mean_i loss(t_i, W x_i + b), gboost bias/scale/grads objectives): numeric, Eigen kernels',
             'independence of the result from thread count / batch size beyond the combinatorial skeleton: floating-point re-association (1e-9 clause), and ANY effect of concurrent execution (races on per-thread buffers, accumulator index tnum used by two tasks at once)',
             'the numeric kernels themselves (linear::predict, loss_t::value / vgrad, Eigen products and reductions, scalar_stats_t::scale formulas incl. missing -> 0: C14)',
-            'cache_targets / cache_flatten outer bodies (they contain try/catch, which the printer refuses): that the cache is resized to one row per sample and that the chunk task is mapped over all samples; the cache invariant (built under the CURRENT scaling mode) is a precondition: targets_iterator_t::scaling(mode) does not invalidate an existing cache (the library sets the mode before caching: src/linear.cpp:35-37)',
-            'constructors of the objectives (m_values / m_vgrads / m_outputs have one row per iterator sample; m_accumulators has concurrency() entries)',
-            'regularisation identities for |W| > 3 (the proof is per array size; 1..3 are checked), IEEE rounding (double treated as real)',
-            'select_iterator_t::loop (feature-wise iteration) and cache_flatten / cache_targets'],
+            'the cache invariant (a complete cache was built under the CURRENT scaling mode and statistics) is a precondition of targets(tnum, range) / flatten(tnum, range) and of cache_*: scaling(mode) does not re-establish it (finding); that no caller changes the mode after caching was READ off the five library call sites (src/linear.cpp:34-37, 119-120; src/linear/util.cpp:34-35; src/gboost/model.cpp:91-100, 321-322), not proved: the call-site functions (fit of linear / gboost) are not under contract',
+            'inside cache_*: that pool_t::map tiles [0, samples) and rethrows a task\'s exception is C17\'s contract, represented by a stub (complete cache or exception); tensor resize (dims first, then allocation), the default-constructed tensor (0 rows) and the noexcept move assignment are assumed contracts read off include/nano/tensor/storage.h',
+            'the products (columns + 1) * tsize, samples * tsize and the byte-count guard of cache_* are uninterpreted in the constructor / cache contracts (no overflow obligation); the asserts of the constructors (m_isize > 0, m_tsize > 0, dims of the strong / weak outputs) are compiled out (NDEBUG) and not obligations',
+            'IEEE rounding in the regularisation terms (double treated as real); finite sums are known only through congruence + linearity (S2)',
+            'dataset_t::select / flatten / targets themselves (what the values of a feature are): C08'],
         'assumptions': [
             'accumulators.size() >= 1 when sum_reduce / min_reduce are called: the vectors are sized with concurrency() == pool size >= 1 (C17 constructor postcondition)',
             'batch() >= 1: linear::batch and gboost::batch are registered with domain [10, 10000] (src/linear.cpp:54, src/gboost/model.cpp:202); m_batch defaults to 100; targets_iterator_t::batch(v) itself does not validate v',
@@ -395,7 +446,9 @@ def build(tier):
             'std::vector::operator[] / range-for / std::min_element(first, last, comp): returns an iterator to an element such that no element compares less (stated at positions 0 and g)',
             'scalar double + and / are uninterpreted in the accumulator contracts (congruence only): the postconditions hold for every interpretation, IEEE included',
             'provenance models: a tensor map passed / copied by value shares the storage it was created from (hooks scale_view_hook, loss_hook, rows_assign_hook); loss_t::value / vgrad write one row per sample of their arguments; linear::predict computes outputs row-wise from inputs; dataset_t::targets / flatten gather the raw rows of the given samples into the given buffer; scalar_stats_t::scale scales in place (and maps missing to 0)',
-            'tnum < number of per-thread buffers / accumulators (C17: tnum < pool size == concurrency(), the size these vectors are constructed with)',
+            'tnum < pool size (C17); that the per-thread buffers / accumulators have concurrency() == pool size entries is now PROVED at construction (ctor targets) -- what remains assumed is that the vectors are not resized between construction and use (no library function does)',
+            'std::vector<T>(n) / (n, value) has n entries (copies of value); tensor_t(dims) / resize(dims) / vector_t::zero(n) have these dims (zero: zeroed); a default-constructed tensor has 0 rows; scalar_stats_t::make_*_stats(dataset, samples) are the statistics of these samples (C14); dataset.columns() < INT64_MAX; |W| = m_tsize * m_isize >= 1 in the generic regularisation VCs (the constructor asserts both positive; NDEBUG builds do not check it)',
+            'STATED FACT S2 (specs/C06/poly.py): a finite sum of a polynomial summand is the linear combination of its monomial sums (used for sum_k (sqrt(l2) W_k)^2 = sqrt(l2)^2 sum_k W_k^2); Q1: sqrt(u) >= 0 and sqrt(u)^2 == u for u >= 0',
             'sum_reduce inside do_vgrad is represented by a symbolic reduced accumulator in the regularisation VCs (its protocol is the subject of the sum_reduce targets)'],
         'trusted': [],
     }
@@ -407,6 +460,17 @@ def replay(rp):
     import re
     import replaylib
     out = {'reproduced': False, 'runs': []}
+    if re.match(r'cache_(targets|flatten)$', rp['target']):
+        # outer bodies of cache_*: the REAL library under an address-space limit around cache_flatten (replay/C09_failed_cache.cpp): exit 1 =
+        # the iterator is unusable / delivers other values after a failed caching (SIGSEGV is reported by the driver itself)
+        exe = replaylib.build_with_library('replay/C09_failed_cache.cpp', 'C09_failed_cache')
+        try:
+            rc, so, se = replaylib.run_driver(exe, [], timeout=600)
+            out['runs'].append({'exit': rc, 'output': so.strip()[-600:]})
+            out['reproduced'] = (rc == 1)
+        except Exception as e:
+            out['runs'].append({'error': repr(e)})
+        return out
     if re.match(r'(linear|bias|scale|grads)_(do_vgrad|task)$|grads_gradients$|(targets|flatten)_(at|scaled)$|cache_(targets|flatten)_task$', rp['target']):
         # objective protocol / access paths: the REAL objectives of the working tree (library rebuilt incrementally) over a strict
         # subset of a 30-sample dataset: MEAN (objective == mean of the single-sample objectives) and CACHE (cached == on the fly
